@@ -16,12 +16,12 @@ m = {
            "enable": "no hooks are committed: checks build /repo unmodified (RUSTFLAGS=\"--cfg harper_verif\" is reserved); private cores are reached through public API, harper-ls sources are compiled into harness/lsx with #[path]",
            "baseline_off_cmd": "cd /repo && RUSTUP_TOOLCHAIN=stable-x86_64-unknown-linux-gnu cargo nextest run --workspace --no-fail-fast --test-threads 8 --offline || (cd /repo && RUSTUP_TOOLCHAIN=stable-x86_64-unknown-linux-gnu cargo test --workspace --no-fail-fast --offline)",
            "source_commits": [], "add_only": True},
- "engines": [{"name": "coq-proof+correspondence", "path": "check", "serves_properties": sorted(props),
+ "engines": [{"name": "coq-proof+correspondence", "path": "check", "serves_properties": sorted(p for p in props if props[p].get("ready") and props[p].get("manifest")),
               "kind_free_text": "Coq 8.16 theorems over hand-written executable Gallina models (coq/), tied to /repo by tables regenerated from the Rust sources (tools/gen_tables.py) and by a differential run of the extracted models (ocaml/) against the implementation (harness/); the property oracle on the implementation is the failing-input search"}],
  "checks": [], "notes": "DESIGN.md explains the approach; known_findings.json lists recorded findings and fixed: lines; AGENTS.md documents the layout.",
  "not_applicable": []}
 for pid in all_ids:
-    if pid in props and props[pid].get("manifest"):
+    if pid in props and props[pid].get("manifest") and props[pid].get("ready"):
         mf = props[pid]["manifest"]
         m["checks"].append({
             "property_id": pid, "quick_cmd": "./check %s --tier quick" % pid, "thorough_cmd": "./check %s --tier thorough" % pid,
